@@ -1,6 +1,7 @@
 import PhyVerif.Model.C07
 import PhyVerif.Spec.C07
 import PhyVerif.Lemmas.C07
+import PhyVerif.Lemmas.C07b
 /-!
 # C07 — spike-cluster index utilities partition the spikes
 Only property theorems + non-vacuity examples; proofs in `Lemmas/C07.lean`.
@@ -23,6 +24,36 @@ theorem groups_partition (sc : List Nat) :
     ((specGroups sc none).map (·.1)).Pairwise (· < ·) ∧
     ((specGroups sc none).map (·.2)).flatten.Perm (List.range sc.length) :=
   Lemmas.groups_partition sc
+
+/-- "exactly the INCREASING array of spike indices (or supplied spike ids)": every group is strictly
+increasing — for spike indices always, for supplied spike ids when the supplied ids are increasing
+(`_spikes_per_cluster` never sorts the ids: `abs_spikes = spike_ids[rel_spikes]`, array.py:344). -/
+theorem groups_increasing (w : Nat) (signed : Bool) (sc : List Nat) (ids : Option (List Nat))
+    (hw : 0 < w) (hfit : FitsDtype w signed sc)
+    (hids : ∀ l, ids = some l → l.length = sc.length ∧ l.Pairwise (· < ·)) :
+    ∀ p ∈ spikesPerCluster w signed sc ids, p.2.Pairwise (· < ·) :=
+  Lemmas.groups_increasing w signed sc ids hw hfit hids
+
+/-- What holds exactly for ARBITRARY supplied ids (any order, repetitions): each group lists the ids
+in the order of their positions (`groups_eq_spec`), hence all groups are increasing if and only if
+the supplied ids increase inside every cluster.  The real helper behaves the same on unsorted ids
+(`_spikes_per_cluster([1,0,1], [30,20,10])` gives `{0: [20], 1: [30, 10]}`; compared by the
+correspondence on unsorted and repeated supplied ids).  Ids shorter than the assignment vector are
+rejected by the real code (IndexError), longer ones have their tail ignored: `hids` is its domain. -/
+theorem groups_increasing_iff (w : Nat) (signed : Bool) (sc : List Nat) (ids : Option (List Nat))
+    (hw : 0 < w) (hfit : FitsDtype w signed sc)
+    (hids : ∀ l, ids = some l → l.length = sc.length) :
+    (∀ p ∈ spikesPerCluster w signed sc ids, p.2.Pairwise (· < ·)) ↔
+      ∀ l, ids = some l → ∀ i j, i < j → j < sc.length → sc.getD i 0 = sc.getD j 0 →
+        l.getD i 0 < l.getD j 0 :=
+  Lemmas.groups_increasing_iff w signed sc ids hw hfit hids
+
+/-- With supplied spike ids the groups partition the SUPPLIED ids (keys strictly increasing, the
+groups together a permutation of the supplied vector), whatever their order. -/
+theorem groups_partition_ids (sc l : List Nat) (hlen : l.length = sc.length) :
+    ((specGroups sc (some l)).map (·.1)).Pairwise (· < ·) ∧
+    ((specGroups sc (some l)).map (·.2)).flatten.Perm l :=
+  Lemmas.groups_partition_ids sc l hlen
 
 /-- Differences of a sorted id vector never wrap, signed or unsigned. -/
 theorem diff_no_wrap (w : Nat) (signed : Bool) (a b : Nat) (hw : 0 < w) (hab : a ≤ b)
@@ -59,6 +90,13 @@ theorem groupedMean_spec (arr : List Int) (sc : List Nat) (h : arr.length = sc.l
     groupedMean arr sc = some (groupedSums arr sc) :=
   Lemmas.groupedMean_spec arr sc h
 
+/-- `grouped_mean` as returned (the quotients `t / spike_counts`, array.py:387): per sorted distinct
+cluster the exact quotient sum / count, every count being positive (no `x / 0 = 0` involved). -/
+theorem groupedMeanQ_spec (arr : List Int) (sc : List Nat) (h : arr.length = sc.length) :
+    groupedMeanQ arr sc = some ((groupedSums arr sc).map fun p => (p.1 : Rat) / (p.2 : Rat)) ∧
+    ∀ p ∈ groupedSums arr sc, 0 < p.2 :=
+  Lemmas.groupedMeanQ_spec arr sc h
+
 /-- per-cluster / per-template spike queries are the member lists -/
 theorem clusterSpikes_eq_members (sc : List Nat) (c : Nat) :
     spikesInClusters sc [c] = members sc none c :=
@@ -79,5 +117,11 @@ example : specGroups [7, 2, 7, 0, 2, 7] none = [(0, [3]), (2, [1, 4]), (7, [0, 2
 example : FitsDtype 16 false [7, 2, 7, 0, 2, 7] := by unfold FitsDtype; decide
 example : wrapDiff 8 false 200 100 = 156 := by decide   -- unsigned differences DO wrap when unsorted
 example : groupedMean [10, 20, 30, 40] [3, 1, 3, 1] = some [(60, 2), (40, 2)] := by decide
+example : groupedMeanQ [10, 20, 31, 40] [3, 1, 3, 1] = some [30, 41 / 2] := by decide +kernel
+-- supplied ids: increasing ids give increasing groups, unsorted ids do not (and are not sorted)
+example : spikesPerCluster 32 true [1, 0, 1] (some [10, 20, 30]) = [(0, [20]), (1, [10, 30])] := by decide
+example : spikesPerCluster 32 true [1, 0, 1] (some [30, 20, 10]) = [(0, [20]), (1, [30, 10])] := by decide
+example : [10, 20, 30].Pairwise (· < ·) := by decide
+example : ((specGroups [1, 0, 1] (some [30, 20, 10])).map (·.2)).flatten = [20, 30, 10] := by decide
 
 end PhyVerif.C07
